@@ -86,7 +86,7 @@ func (f *Frame) applyCall(v ssa.Value, c *ssa.CallCommon, callee *ssa.Function, 
 		return
 	}
 	if callee != nil && callee.Blocks != nil && u.W.inModule(callee) {
-		if u.sweep && u.Prop != "C02" && !returnsVerdict(callee) {
+		if u.sweep && u.Prop != "C02" && u.Prop != "C05" && !returnsVerdict(callee) {
 			// severity/status sweeps only need the helpers that produce verdicts; everything
 			// else is abstracted (result unconstrained, no effect on the lint's own result)
 			u.note("helpers that do not return a verdict are abstracted in the severity/status sweep as deterministic uninterpreted functions of their arguments (read-only, deterministic lint code: C05 frames)")
@@ -272,7 +272,10 @@ func (f *Frame) callByContract(v ssa.Value, in ssa.Instruction, sig *types.Signa
 					}
 					earr, _ := u.elemArr(sl.Elem())
 					base := "(sl.base " + av.T + ")"
+					// an empty slice has no elements to overwrite
+					f.frameExtra = "(= (sl.len " + av.T + ") 0)"
 					f.frameCheckRef(st, in, earr, base, "callee "+what+" overwrites the elements of its argument")
+					f.frameExtra = ""
 					ea := u.hget(st.heap, earr)
 					nd := u.fresh("elems", "(Array Int "+u.D.SortOf(sl.Elem())+")")
 					// only the slice's own window changes
@@ -984,6 +987,11 @@ func (f *Frame) enterLoop(b *ssa.BasicBlock, ls *loopState, preds []*ssa.BasicBl
 	for _, phi := range phis {
 		x := u.fresh("loop."+clip(phi.Comment, 16), u.D.SortOf(phi.Type()))
 		u.assumeRange(x, phi.Type())
+		if f.freshOrNilSlice(phi) {
+			// a slice that starts nil (or freshly made) and is only ever re-assigned the result
+			// of append(itself, ...) is nil or backed by memory allocated during this activation
+			u.emit(fmt.Sprintf("(assert (or (= (sl.base %s) 0) (> (sl.base %s) %s)))", x, x, u.top0))
+		}
 		if isRangeIndex(phi) {
 			// go/ssa lowers `range` over a slice/array to an index that starts at -1 and is
 			// incremented once per iteration: -1 <= index is inductive by construction
@@ -1139,6 +1147,9 @@ func (f *Frame) frameCheckRef(st *state, in ssa.Instruction, arr, ref, what stri
 	}
 	u := f.u
 	var alts []string
+	if f.frameExtra != "" {
+		alts = append(alts, f.frameExtra)
+	}
 	if ref != "" {
 		alts = append(alts, "(> "+ref+" "+fs.top0+")")
 		for _, a := range fs.afters {
@@ -1393,4 +1404,52 @@ func (f *Frame) abstractCall(v ssa.Value, callee *ssa.Function, sig *types.Signa
 		rs = append(rs, Val{T: t, Typ: rt})
 	}
 	f.bindResults(v, rs)
+}
+
+
+// freshOrNilSlice recognises the accumulator pattern `var s []T; for ... { s = append(s, ...) }`.
+func (f *Frame) freshOrNilSlice(phi *ssa.Phi) bool {
+	if _, ok := phi.Type().Underlying().(*types.Slice); !ok || f.u.top0 == "" {
+		return false
+	}
+	seen := map[ssa.Value]bool{}
+	var ok func(v ssa.Value, depth int) bool
+	ok = func(v ssa.Value, depth int) bool {
+		if depth > 6 {
+			return false
+		}
+		if v == phi || seen[v] {
+			return true
+		}
+		seen[v] = true
+		switch x := v.(type) {
+		case *ssa.Const:
+			return x.Value == nil
+		case *ssa.MakeSlice:
+			return true
+		case *ssa.Phi:
+			for _, e := range x.Edges {
+				if !ok(e, depth+1) {
+					return false
+				}
+			}
+			return true
+		case *ssa.Call:
+			if b, isB := x.Call.Value.(*ssa.Builtin); isB && b.Name() == "append" {
+				return ok(x.Call.Args[0], depth+1)
+			}
+		case *ssa.Slice:
+			// a slice literal: slice of a fresh array
+			if al, isAl := x.X.(*ssa.Alloc); isAl && !f.escaped[al] {
+				return true
+			}
+		}
+		return false
+	}
+	for _, e := range phi.Edges {
+		if !ok(e, 0) {
+			return false
+		}
+	}
+	return true
 }
